@@ -679,7 +679,16 @@ func Matrix(args []string) int {
 	}
 	var jobs []job
 	out := map[string]map[string][]string{}
+	only := map[string]bool{}
+	if len(args) > 2 {
+		for _, a := range args[2:] {
+			only[a] = true
+		}
+	}
 	for _, e := range ents {
+		if len(only) > 0 && !only[e.Name()] {
+			continue
+		}
 		patch := filepath.Join(verif, "seeded", e.Name(), "patch.diff")
 		if _, err := os.Stat(patch); err != nil {
 			continue
